@@ -83,31 +83,50 @@ func Verif_C37_updates() {
 	verifReach("end")
 }
 
-type verifChance struct{ thr, pct uint32 }
+type verifSelChance struct{ thr, pct uint32 }
 
-func (c *verifChance) GetMaxThreshold() uint32     { return c.thr }
-func (c *verifChance) GetChancePercentage() uint32 { return c.pct }
-func (c *verifChance) IsInterfaceNil() bool        { return c == nil }
+func (c *verifSelChance) GetMaxThreshold() uint32  { return c.thr }
+func (c *verifSelChance) GetChancePercent() uint32 { return c.pct }
 
-// selection chance: the band whose threshold is the first one >= rating (bands sorted, first 0, last max)
+type verifRatingsInfo struct {
+	min, max, start uint32
+	steps           *verifSteps
+	chances         []process.SelectionChance
+}
+
+func (r *verifRatingsInfo) StartRating() uint32                                   { return r.start }
+func (r *verifRatingsInfo) MaxRating() uint32                                     { return r.max }
+func (r *verifRatingsInfo) MinRating() uint32                                     { return r.min }
+func (r *verifRatingsInfo) SignedBlocksThreshold() float32                        { return 0.5 }
+func (r *verifRatingsInfo) MetaChainRatingsStepHandler() process.RatingsStepHandler  { return r.steps }
+func (r *verifRatingsInfo) ShardChainRatingsStepHandler() process.RatingsStepHandler { return r.steps }
+func (r *verifRatingsInfo) SelectionChances() []process.SelectionChance           { return r.chances }
+func (r *verifRatingsInfo) IsInterfaceNil() bool                                  { return r == nil }
+
+// selection chance through the real constructor: three bands (thresholds 0 < t1 < t2 = max) listed in any
+// order in the configuration; the chance of a rating is that of the first band whose threshold is >= rating
 func Verif_C37_chance() {
 	t1, t2 := verifU32("t1"), verifU32("t2")
 	verifAssume(0 < t1 && t1 < t2)
-	c := []*verifChance{{0, verifU32("c0")}, {t1, verifU32("c1")}, {t2, verifU32("c2")}}
-	bsr := &BlockSigningRater{minRating: 1, maxRating: t2}
-	for _, x := range c {
-		bsr.ratingChances = append(bsr.ratingChances, process.RatingChanceHandler(x))
+	bands := []*verifSelChance{{0, verifU32("c0")}, {t1, verifU32("c1")}, {t2, verifU32("c2")}}
+	perms := [][3]int{{0, 1, 2}, {0, 2, 1}, {1, 0, 2}, {1, 2, 0}, {2, 0, 1}, {2, 1, 0}}
+	p := perms[verifChoice("listingOrder", len(perms))]
+	info := &verifRatingsInfo{min: 1, max: t2, start: t2, steps: &verifSteps{pi: 1, vi: 1, pd: -1, vd: -1, penalty: 1}}
+	for _, i := range p {
+		info.chances = append(info.chances, process.SelectionChance(bands[i]))
 	}
+	bsr, err := NewBlockSigningRater(info)
+	verifAssert(err == nil && bsr != nil, "valid ratings configuration accepted")
 	r := verifU32("rating")
 	verifAssume(r <= t2)
 	got := bsr.GetChance(r)
 	switch {
 	case r == 0:
-		verifAssert(got == c[0].pct, "band 0")
+		verifAssert(got == bands[0].pct, "band 0")
 	case r <= t1:
-		verifAssert(got == c[1].pct, "band 1")
+		verifAssert(got == bands[1].pct, "band 1")
 	default:
-		verifAssert(got == c[2].pct, "band 2")
+		verifAssert(got == bands[2].pct, "band 2")
 	}
 	verifReach("end")
 }
